@@ -31,7 +31,7 @@ Theorem c10_no_forbidden_update_map : forall s table, wf s -> forall selects omi
   In (c, k) (assign_map s (select_and_omit s table selects omits false true) skip p) ->
   (exists f, In f s /\ has_col f = true /\ c = f_db f /\ updatable f = true
              /\ (k = KNow -> skip = false /\ tracked_update f = true
-                             /\ map_has p (f_name f) = false /\ map_has p (f_db f) = false))
+                             /\ was_assigned (map_keys_part s (select_and_omit s table selects omits false true) p) (f_db f) = false))
   \/ (lookup_field s c = None /\ map_has p c = true /\ k = KPay).
 Proof. exact assign_map_in. Qed.
 Print Assumptions c10_no_forbidden_update_map.
@@ -91,15 +91,18 @@ Theorem c10_autoupdate_struct : forall s table, wf s -> forall selects omits is_
 Proof. exact autoupdate_struct. Qed.
 Print Assumptions c10_autoupdate_struct.
 
-(* ... for a map payload under the extra hypothesis that the map does not name the field: PARTIAL.
-   Without it the statement is refuted (c10_autoupdate_map_refuted). *)
-Theorem c10_autoupdate_map_partial : forall s table, wf s -> forall selects omits p f,
+(* ... and with a map payload: the column is always written — with the map's value when the key loop
+   assigned it (key given, selected, permitted), refreshed (NowFunc) otherwise.  Total since /repo
+   commit cef6815. *)
+Theorem c10_autoupdate_map : forall s table, wf s -> forall selects omits p f,
   In f s -> has_col f = true -> local table selects = true -> local table omits = true ->
   tracked_update f = true -> updatable f = true -> listed table omits f = false ->
-  map_has p (f_name f) = false -> map_has p (f_db f) = false ->
-  In (f_db f, KNow) (assign_map s (select_and_omit s table selects omits false true) false p).
+  let sm := select_and_omit s table selects omits false true in
+  if was_assigned (map_keys_part s sm p) (f_db f)
+  then In (f_db f, KPay) (assign_map s sm false p)
+  else In (f_db f, KNow) (assign_map s sm false p).
 Proof. exact autoupdate_map. Qed.
-Print Assumptions c10_autoupdate_map_partial.
+Print Assumptions c10_autoupdate_map.
 
 (* ... and never by UpdateColumn / UpdateColumns *)
 Theorem c10_column_update_never_refreshes_struct : forall s table selects omits is_save p c k,
@@ -130,14 +133,15 @@ Theorem c10_create_cells : forall s table, wf s -> forall o selects omits ps sto
 Proof. exact create_cells_permitted. Qed.
 Print Assumptions c10_create_cells.
 
-(* REFUTED for map payloads in general: Select("name").Updates(map{name, updated_at}) on M1 neither
-   writes nor refreshes updated_at (known finding map-tracked-key-unselected, replayed on gorm) *)
-Theorem c10_autoupdate_map_refuted : exists s table selects omits p f,
+(* RECORD of the fixed finding map-tracked-key-unselected: with the refresh test as it was before
+   commit cef6815 ([assign_map_old], not evaluated by the checker) Select("name").Updates(map{name,
+   updated_at}) on M1 neither wrote nor refreshed updated_at (corpus/C10, replayed on gorm every run) *)
+Theorem c10_autoupdate_map_old_refuted : exists s table selects omits p f,
   wf s /\ In f s /\ has_col f = true /\ tracked_update f = true /\ updatable f = true
   /\ listed table omits f = false
-  /\ ~ exists k, In (f_db f, k) (assign_map s (select_and_omit s table selects omits false true) false p).
-Proof. exact autoupdate_map_refuted. Qed.
-Print Assumptions c10_autoupdate_map_refuted.
+  /\ ~ exists k, In (f_db f, k) (assign_map_old s (select_and_omit s table selects omits false true) false p).
+Proof. exact autoupdate_map_old_refuted. Qed.
+Print Assumptions c10_autoupdate_map_old_refuted.
 
 (* the hypotheses are met by the six model types of the harness *)
 Theorem c10_harness_schemas_wf : Forall wf harness_schemas.
